@@ -99,12 +99,14 @@ module Little =
   | D9 d0 -> D9 (succ_double d0)
  end
 
-(** val add : nat -> nat -> nat **)
-
-let rec add n0 m =
-  match n0 with
-  | O -> m
-  | S p -> S (add p m)
+module Coq__1 = struct
+ (** val add : nat -> nat -> nat **)
+ let rec add n0 m =
+   match n0 with
+   | O -> m
+   | S p -> S (add p m)
+end
+include Coq__1
 
 (** val mul : nat -> nat -> nat **)
 
@@ -112,6 +114,15 @@ let rec mul n0 m =
   match n0 with
   | O -> O
   | S p -> add m (mul p m)
+
+(** val sub : nat -> nat -> nat **)
+
+let rec sub n0 m =
+  match n0 with
+  | O -> n0
+  | S k -> (match m with
+            | O -> n0
+            | S l -> sub k l)
 
 (** val eqb : nat -> nat -> bool **)
 
@@ -152,6 +163,43 @@ type n =
 | N0
 | Npos of positive
 
+module Nat =
+ struct
+  (** val sub : nat -> nat -> nat **)
+
+  let rec sub n0 m =
+    match n0 with
+    | O -> n0
+    | S k -> (match m with
+              | O -> n0
+              | S l -> sub k l)
+
+  (** val leb : nat -> nat -> bool **)
+
+  let rec leb n0 m =
+    match n0 with
+    | O -> true
+    | S n' -> (match m with
+               | O -> false
+               | S m' -> leb n' m')
+
+  (** val divmod : nat -> nat -> nat -> nat -> nat * nat **)
+
+  let rec divmod x y q u =
+    match x with
+    | O -> (q, u)
+    | S x' ->
+      (match u with
+       | O -> divmod x' y (S q) y
+       | S u' -> divmod x' y q u')
+
+  (** val modulo : nat -> nat -> nat **)
+
+  let modulo x = function
+  | O -> x
+  | S y' -> sub y' (snd (divmod x y' O y'))
+ end
+
 module Pos =
  struct
   (** val succ : positive -> positive **)
@@ -160,6 +208,53 @@ module Pos =
   | XI p -> XO (succ p)
   | XO p -> XI p
   | XH -> XO XH
+
+  (** val add : positive -> positive -> positive **)
+
+  let rec add x y =
+    match x with
+    | XI p ->
+      (match y with
+       | XI q -> XO (add_carry p q)
+       | XO q -> XI (add p q)
+       | XH -> XO (succ p))
+    | XO p ->
+      (match y with
+       | XI q -> XI (add p q)
+       | XO q -> XO (add p q)
+       | XH -> XI p)
+    | XH -> (match y with
+             | XI q -> XO (succ q)
+             | XO q -> XI q
+             | XH -> XO XH)
+
+  (** val add_carry : positive -> positive -> positive **)
+
+  and add_carry x y =
+    match x with
+    | XI p ->
+      (match y with
+       | XI q -> XI (add_carry p q)
+       | XO q -> XO (add_carry p q)
+       | XH -> XI (succ p))
+    | XO p ->
+      (match y with
+       | XI q -> XO (add_carry p q)
+       | XO q -> XI (add p q)
+       | XH -> XO (succ p))
+    | XH ->
+      (match y with
+       | XI q -> XI (succ q)
+       | XO q -> XO (succ q)
+       | XH -> XI XH)
+
+  (** val mul : positive -> positive -> positive **)
+
+  let rec mul x y =
+    match x with
+    | XI p -> add y (XO (mul p y))
+    | XO p -> XO (mul p y)
+    | XH -> y
 
   (** val eqb : positive -> positive -> bool **)
 
@@ -174,6 +269,25 @@ module Pos =
     | XH -> (match q with
              | XH -> true
              | _ -> false)
+
+  (** val iter_op : ('a1 -> 'a1 -> 'a1) -> positive -> 'a1 -> 'a1 **)
+
+  let rec iter_op op p a =
+    match p with
+    | XI p0 -> op a (iter_op op p0 (op a a))
+    | XO p0 -> iter_op op p0 (op a a)
+    | XH -> a
+
+  (** val to_nat : positive -> nat **)
+
+  let to_nat x =
+    iter_op Coq__1.add x (S O)
+
+  (** val of_succ_nat : nat -> positive **)
+
+  let rec of_succ_nat = function
+  | O -> XH
+  | S x -> succ (of_succ_nat x)
 
   (** val to_little_uint : positive -> uint **)
 
@@ -210,6 +324,24 @@ module N =
   | N0 -> Npos XH
   | Npos p -> Npos (Pos.succ p)
 
+  (** val add : n -> n -> n **)
+
+  let add n0 m =
+    match n0 with
+    | N0 -> m
+    | Npos p -> (match m with
+                 | N0 -> n0
+                 | Npos q -> Npos (Pos.add p q))
+
+  (** val mul : n -> n -> n **)
+
+  let mul n0 m =
+    match n0 with
+    | N0 -> N0
+    | Npos p -> (match m with
+                 | N0 -> N0
+                 | Npos q -> Npos (Pos.mul p q))
+
   (** val eqb : n -> n -> bool **)
 
   let eqb n0 m =
@@ -220,6 +352,18 @@ module N =
     | Npos p -> (match m with
                  | N0 -> false
                  | Npos q -> Pos.eqb p q)
+
+  (** val to_nat : n -> nat **)
+
+  let to_nat = function
+  | N0 -> O
+  | Npos p -> Pos.to_nat p
+
+  (** val of_nat : nat -> n **)
+
+  let of_nat = function
+  | O -> N0
+  | S n' -> Npos (Pos.of_succ_nat n')
 
   (** val to_uint : n -> uint **)
 
@@ -238,6 +382,67 @@ module N =
                  | N0 -> false
                  | Npos p0 -> Pos.eq_dec p p0)
  end
+
+(** val zero : char **)
+
+let zero = '\000'
+
+(** val one : char **)
+
+let one = '\001'
+
+(** val shift : bool -> char -> char **)
+
+let shift = fun b c -> Char.chr (((Char.code c) lsl 1) land 255 + if b then 1 else 0)
+
+(** val ascii_of_pos : positive -> char **)
+
+let ascii_of_pos =
+  let rec loop n0 p =
+    match n0 with
+    | O -> zero
+    | S n' ->
+      (match p with
+       | XI p' -> shift true (loop n' p')
+       | XO p' -> shift false (loop n' p')
+       | XH -> one)
+  in loop (S (S (S (S (S (S (S (S O))))))))
+
+(** val ascii_of_N : n -> char **)
+
+let ascii_of_N = function
+| N0 -> zero
+| Npos p -> ascii_of_pos p
+
+(** val ascii_of_nat : nat -> char **)
+
+let ascii_of_nat a =
+  ascii_of_N (N.of_nat a)
+
+(** val n_of_digits : bool list -> n **)
+
+let rec n_of_digits = function
+| [] -> N0
+| b :: l' ->
+  N.add (if b then Npos XH else N0) (N.mul (Npos (XO XH)) (n_of_digits l'))
+
+(** val n_of_ascii : char -> n **)
+
+let n_of_ascii a =
+  (* If this appears, you're using Ascii internals. Please don't *)
+ (fun f c ->
+  let n = Char.code c in
+  let h i = (n land (1 lsl i)) <> 0 in
+  f (h 0) (h 1) (h 2) (h 3) (h 4) (h 5) (h 6) (h 7))
+    (fun a0 a1 a2 a3 a4 a5 a6 a7 ->
+    n_of_digits
+      (a0 :: (a1 :: (a2 :: (a3 :: (a4 :: (a5 :: (a6 :: (a7 :: [])))))))))
+    a
+
+(** val nat_of_ascii : char -> nat **)
+
+let nat_of_ascii a =
+  N.to_nat (n_of_ascii a)
 
 (** val map : ('a1 -> 'a2) -> 'a1 list -> 'a2 list **)
 
@@ -329,6 +534,34 @@ let rec append s1 s2 =
   match s1 with
   | [] -> s2
   | c::s1' -> c::(append s1' s2)
+
+(** val length0 : char list -> nat **)
+
+let rec length0 = function
+| [] -> O
+| _::s' -> S (length0 s')
+
+(** val get : nat -> char list -> char option **)
+
+let rec get n0 = function
+| [] -> None
+| c::s' -> (match n0 with
+            | O -> Some c
+            | S n' -> get n' s')
+
+(** val substring : nat -> nat -> char list -> char list **)
+
+let rec substring n0 m s =
+  match n0 with
+  | O ->
+    (match m with
+     | O -> []
+     | S m' -> (match s with
+                | [] -> s
+                | c::s' -> c::(substring O m' s')))
+  | S n' -> (match s with
+             | [] -> s
+             | _::s' -> substring n' m s')
 
 (** val prefix : char list -> char list -> bool **)
 
@@ -1213,6 +1446,11 @@ let gen_ADD_ASSIGN_TAG =
 let gen_TPL_TAG =
   'T'::('p'::('l'::[]))
 
+(** val gen_lit_callers : char list list **)
+
+let gen_lit_callers =
+  ('c'::('o'::('n'::('c'::('a'::('t'::[])))))) :: (('r'::('e'::('p'::('l'::('a'::('c'::('e'::[]))))))) :: (('r'::('e'::('p'::('l'::('a'::('c'::('e'::('A'::('l'::('l'::[])))))))))) :: (('p'::('a'::('d'::('E'::('n'::('d'::[])))))) :: (('p'::('a'::('d'::('S'::('t'::('a'::('r'::('t'::[])))))))) :: (('r'::('e'::('p'::('e'::('a'::('t'::[])))))) :: [])))))
+
 (** val gen_PROTOTYPE : char list **)
 
 let gen_PROTOTYPE =
@@ -1228,6 +1466,26 @@ let gen_CALL =
 let gen_APPLY =
   'a'::('p'::('p'::('l'::('y'::[]))))
 
+(** val gen_prologue_template : char list **)
+
+let gen_prologue_template =
+  ';'::('i'::('f'::(' '::('('::('t'::('y'::('p'::('e'::('o'::('f'::(' '::('_'::('d'::('d'::('i'::('a'::('s'::('t'::(' '::('='::('='::('='::(' '::('\''::('u'::('n'::('d'::('e'::('f'::('i'::('n'::('e'::('d'::('\''::(')'::(' '::('('::('f'::('u'::('n'::('c'::('t'::('i'::('o'::('n'::('('::('g'::('l'::('o'::('b'::('a'::('l'::('s'::(')'::('{'::(' '::('c'::('o'::('n'::('s'::('t'::(' '::('n'::('o'::('o'::('p'::(' '::('='::(' '::('('::('r'::('e'::('s'::(')'::(' '::('='::('>'::(' '::('r'::('e'::('s'::(';'::(' '::('g'::('l'::('o'::('b'::('a'::('l'::('s'::('.'::('_'::('d'::('d'::('i'::('a'::('s'::('t'::(' '::('='::(' '::('g'::('l'::('o'::('b'::('a'::('l'::('s'::('.'::('_'::('d'::('d'::('i'::('a'::('s'::('t'::(' '::('|'::('|'::(' '::('{'::(' '::('_'::('_'::('C'::('S'::('I'::('_'::('M'::('E'::('T'::('H'::('O'::('D'::('S'::('_'::('_'::(' '::('}'::(';'::(' '::('}'::('('::('('::('1'::(','::('e'::('v'::('a'::('l'::(')'::('('::('\''::('t'::('h'::('i'::('s'::('\''::(')'::(')'::(')'::(';'::[]))))))))))))))))))))))))))))))))))))))))))))))))))))))))))))))))))))))))))))))))))))))))))))))))))))))))))))))))))))))))))))))))))))))))))))))))))))))))))))))))))
+
+(** val gen_prologue_entry_format : char list **)
+
+let gen_prologue_entry_format =
+  '{'::('}'::(':'::(' '::('n'::('o'::('o'::('p'::[])))))))
+
+(** val gen_prologue_join : char list **)
+
+let gen_prologue_join =
+  ','::(' '::[])
+
+(** val gen_prologue_placeholder : char list **)
+
+let gen_prologue_placeholder =
+  '_'::('_'::('C'::('S'::('I'::('_'::('M'::('E'::('T'::('H'::('O'::('D'::('S'::('_'::('_'::[]))))))))))))))
+
 (** val gen_cancel_format : char list **)
 
 let gen_cancel_format =
@@ -1242,6 +1500,65 @@ let gen_cancel_unknown =
 
 let gen_cancel_reason =
   'V'::('a'::('r'::('i'::('a'::('b'::('l'::('e'::(' '::('n'::('a'::('m'::('e'::(' '::('d'::('u'::('p'::('l'::('i'::('c'::('a'::('t'::('e'::('d'::[])))))))))))))))))))))))
+
+(** val gen_default_chain : bool **)
+
+let gen_default_chain =
+  false
+
+(** val gen_default_comments : bool **)
+
+let gen_default_comments =
+  false
+
+(** val gen_default_literals : bool **)
+
+let gen_default_literals =
+  true
+
+(** val gen_default_prefix_len : n **)
+
+let gen_default_prefix_len =
+  Npos (XO (XI XH))
+
+(** val gen_default_operator : bool **)
+
+let gen_default_operator =
+  false
+
+(** val gen_default_awc : bool **)
+
+let gen_default_awc =
+  false
+
+(** val gen_rnd_alphabet : char list **)
+
+let gen_rnd_alphabet =
+  'a'::('b'::('c'::('d'::('e'::('f'::('g'::('h'::('i'::('j'::('k'::('l'::('m'::('n'::('o'::('p'::('q'::('r'::('s'::('t'::('u'::('v'::('w'::('x'::('y'::('z'::[])))))))))))))))))))))))))
+
+(** val gen_verbosity_table : (char list * char list) list **)
+
+let gen_verbosity_table =
+  (('O'::('F'::('F'::[]))),
+    ('O'::('f'::('f'::[])))) :: ((('M'::('A'::('N'::('D'::('A'::('T'::('O'::('R'::('Y'::[]))))))))),
+    ('M'::('a'::('n'::('d'::('a'::('t'::('o'::('r'::('y'::[])))))))))) :: ((('I'::('N'::('F'::('O'::('R'::('M'::('A'::('T'::('I'::('O'::('N'::[]))))))))))),
+    ('I'::('n'::('f'::('o'::('r'::('m'::('a'::('t'::('i'::('o'::('n'::[])))))))))))) :: ((('D'::('E'::('B'::('U'::('G'::[]))))),
+    ('D'::('e'::('b'::('u'::('g'::[])))))) :: [])))
+
+(** val gen_verbosity_fallback : char list **)
+
+let gen_verbosity_fallback =
+  'I'::('n'::('f'::('o'::('r'::('m'::('a'::('t'::('i'::('o'::('n'::[]))))))))))
+
+(** val gen_verbosity_absent : char list **)
+
+let gen_verbosity_absent =
+  'I'::('n'::('f'::('o'::('r'::('m'::('a'::('t'::('i'::('o'::('n'::[]))))))))))
+
+(** val gen_verbosity_uppercases : bool **)
+
+let gen_verbosity_uppercases =
+  true
 
 type csi_method = { m_src : char list; m_dst : char list; m_operator : 
                     bool; m_awc : bool }
@@ -1315,6 +1632,245 @@ let allows_literal_callers c name =
 let var_prefix c =
   append gen_DATADOG_VAR_PREFIX
     (append ('_'::[]) (append c.c_prefix ('_'::[])))
+
+type raw_method = { rm_src : char list; rm_dst : char list option;
+                    rm_operator : bool option; rm_awc : bool option }
+
+type raw_config = { r_chain : bool option; r_comments : bool option;
+                    r_prefix : char list option;
+                    r_methods_opt : raw_method list option;
+                    r_verbosity : char list option; r_literals : bool option }
+
+(** val r_methods : raw_config -> raw_method list **)
+
+let r_methods r =
+  match r.r_methods_opt with
+  | Some l -> l
+  | None -> []
+
+(** val opt_default : 'a1 -> 'a1 option -> 'a1 **)
+
+let opt_default d = function
+| Some x -> x
+| None -> d
+
+(** val method_of_raw : raw_method -> csi_method **)
+
+let method_of_raw m =
+  { m_src = m.rm_src; m_dst = (opt_default m.rm_src m.rm_dst); m_operator =
+    (opt_default gen_default_operator m.rm_operator); m_awc =
+    (opt_default gen_default_awc m.rm_awc) }
+
+(** val nth_char : char list -> nat -> char **)
+
+let nth_char s i =
+  match get i s with
+  | Some ch -> ch
+  | None -> 'a'
+
+(** val rnd_chars : (nat -> nat) -> char list -> nat -> nat -> char list **)
+
+let rec rnd_chars rnd alphabet i = function
+| O -> []
+| S n' ->
+  (nth_char alphabet (Nat.modulo (rnd i) (length0 alphabet)))::(rnd_chars rnd
+                                                                 alphabet (S
+                                                                 i) n')
+
+(** val rnd_string : (nat -> nat) -> nat -> char list **)
+
+let rnd_string rnd len =
+  rnd_chars rnd gen_rnd_alphabet O len
+
+(** val upper_ascii : char -> char **)
+
+let upper_ascii ch =
+  let n0 = nat_of_ascii ch in
+  if (&&)
+       (Nat.leb (S (S (S (S (S (S (S (S (S (S (S (S (S (S (S (S (S (S (S (S
+         (S (S (S (S (S (S (S (S (S (S (S (S (S (S (S (S (S (S (S (S (S (S (S
+         (S (S (S (S (S (S (S (S (S (S (S (S (S (S (S (S (S (S (S (S (S (S (S
+         (S (S (S (S (S (S (S (S (S (S (S (S (S (S (S (S (S (S (S (S (S (S (S
+         (S (S (S (S (S (S (S (S
+         O)))))))))))))))))))))))))))))))))))))))))))))))))))))))))))))))))))))))))))))))))))))))))))))))))
+         n0)
+       (Nat.leb n0 (S (S (S (S (S (S (S (S (S (S (S (S (S (S (S (S (S (S (S
+         (S (S (S (S (S (S (S (S (S (S (S (S (S (S (S (S (S (S (S (S (S (S (S
+         (S (S (S (S (S (S (S (S (S (S (S (S (S (S (S (S (S (S (S (S (S (S (S
+         (S (S (S (S (S (S (S (S (S (S (S (S (S (S (S (S (S (S (S (S (S (S (S
+         (S (S (S (S (S (S (S (S (S (S (S (S (S (S (S (S (S (S (S (S (S (S (S
+         (S (S (S (S (S (S (S (S (S (S (S
+         O)))))))))))))))))))))))))))))))))))))))))))))))))))))))))))))))))))))))))))))))))))))))))))))))))))))))))))))))))))))))))))
+  then ascii_of_nat
+         (sub n0 (S (S (S (S (S (S (S (S (S (S (S (S (S (S (S (S (S (S (S (S
+           (S (S (S (S (S (S (S (S (S (S (S (S
+           O)))))))))))))))))))))))))))))))))
+  else ch
+
+(** val upper : char list -> char list **)
+
+let rec upper = function
+| [] -> []
+| ch::r -> (upper_ascii ch)::(upper r)
+
+(** val verbosity_of_name : char list -> verbosity **)
+
+let verbosity_of_name s =
+  if eqb1 s ('O'::('f'::('f'::[])))
+  then VOff
+  else if eqb1 s
+            ('M'::('a'::('n'::('d'::('a'::('t'::('o'::('r'::('y'::[])))))))))
+       then VMandatory
+       else if eqb1 s ('D'::('e'::('b'::('u'::('g'::[])))))
+            then VDebug
+            else VInformation
+
+(** val assoc_string :
+    char list -> (char list * char list) list -> char list option **)
+
+let rec assoc_string k = function
+| [] -> None
+| p :: t' -> let (a, b) = p in if eqb1 k a then Some b else assoc_string k t'
+
+(** val parse_verbosity : char list option -> verbosity **)
+
+let parse_verbosity = function
+| Some v ->
+  let key = if gen_verbosity_uppercases then upper v else v in
+  (match assoc_string key gen_verbosity_table with
+   | Some name -> verbosity_of_name name
+   | None -> verbosity_of_name gen_verbosity_fallback)
+| None -> verbosity_of_name gen_verbosity_absent
+
+(** val join : char list -> char list list -> char list **)
+
+let rec join sep = function
+| [] -> []
+| x :: r ->
+  (match r with
+   | [] -> x
+   | _ :: _ -> append x (append sep (join sep r)))
+
+(** val replace_first : char list -> char list -> char list -> char list **)
+
+let rec replace_first pat repl s =
+  if prefix pat s
+  then append repl (substring (length0 pat) (sub (length0 s) (length0 pat)) s)
+  else (match s with
+        | [] -> []
+        | ch::r -> ch::(replace_first pat repl r))
+
+(** val subst1 : char list -> char list -> char list **)
+
+let rec subst1 fmt arg =
+  match fmt with
+  | [] -> []
+  | ch::rest ->
+    (* If this appears, you're using Ascii internals. Please don't *)
+ (fun f c ->
+  let n = Char.code c in
+  let h i = (n land (1 lsl i)) <> 0 in
+  f (h 0) (h 1) (h 2) (h 3) (h 4) (h 5) (h 6) (h 7))
+      (fun b b0 b1 b2 b3 b4 b5 b6 ->
+      if b
+      then if b0
+           then if b1
+                then ch::(subst1 rest arg)
+                else if b2
+                     then if b3
+                          then if b4
+                               then if b5
+                                    then if b6
+                                         then ch::(subst1 rest arg)
+                                         else (match rest with
+                                               | [] -> ch::(subst1 rest arg)
+                                               | a::rest0 ->
+                                                 (* If this appears, you're using Ascii internals. Please don't *)
+ (fun f c ->
+  let n = Char.code c in
+  let h i = (n land (1 lsl i)) <> 0 in
+  f (h 0) (h 1) (h 2) (h 3) (h 4) (h 5) (h 6) (h 7))
+                                                   (fun b7 b8 b9 b10 b11 b12 b13 b14 ->
+                                                   if b7
+                                                   then if b8
+                                                        then ch::(subst1 rest
+                                                                   arg)
+                                                        else if b9
+                                                             then if b10
+                                                                  then 
+                                                                    if b11
+                                                                    then 
+                                                                    if b12
+                                                                    then 
+                                                                    if b13
+                                                                    then 
+                                                                    if b14
+                                                                    then 
+                                                                    ch::
+                                                                    (subst1
+                                                                    rest arg)
+                                                                    else 
+                                                                    append
+                                                                    arg rest0
+                                                                    else 
+                                                                    ch::
+                                                                    (subst1
+                                                                    rest arg)
+                                                                    else 
+                                                                    ch::
+                                                                    (subst1
+                                                                    rest arg)
+                                                                    else 
+                                                                    ch::
+                                                                    (subst1
+                                                                    rest arg)
+                                                                  else 
+                                                                    ch::
+                                                                    (subst1
+                                                                    rest arg)
+                                                             else ch::
+                                                                    (subst1
+                                                                    rest arg)
+                                                   else ch::(subst1 rest arg))
+                                                   a)
+                                    else ch::(subst1 rest arg)
+                               else ch::(subst1 rest arg)
+                          else ch::(subst1 rest arg)
+                     else ch::(subst1 rest arg)
+           else ch::(subst1 rest arg)
+      else ch::(subst1 rest arg))
+      ch
+
+(** val prologue_text : csi_method list -> char list **)
+
+let prologue_text methods =
+  replace_first gen_prologue_placeholder
+    (join gen_prologue_join
+      (map (fun m -> subst1 gen_prologue_entry_format m.m_dst) methods))
+    gen_prologue_template
+
+(** val to_config_with :
+    (char list -> node list) -> (nat -> nat) -> raw_config -> config **)
+
+let to_config_with parse_prologue rnd r =
+  let methods = map method_of_raw (r_methods r) in
+  { c_prefix =
+  (match r.r_prefix with
+   | Some p -> p
+   | None -> rnd_string rnd (N.to_nat gen_default_prefix_len)); c_methods =
+  methods; c_lit_callers =
+  (match r.r_methods_opt with
+   | Some _ -> gen_lit_callers
+   | None -> []); c_verbosity = (parse_verbosity r.r_verbosity); c_literals =
+  (opt_default gen_default_literals r.r_literals); c_chain =
+  (opt_default gen_default_chain r.r_chain); c_comments =
+  (opt_default gen_default_comments r.r_comments); c_prefix_stmts =
+  (parse_prologue (prologue_text methods)) }
+
+(** val to_config : (nat -> nat) -> raw_config -> config **)
+
+let to_config rnd r =
+  to_config_with (fun _ -> []) rnd r
 
 module NilEmpty =
  struct
@@ -2780,6 +3336,203 @@ let callee_is_expr call =
     negb ((||) (is_kind KSuper callee) (is_kind KImport callee))
   | None -> false
 
+(** val is_op : (node -> char list option) -> char list -> node -> bool **)
+
+let is_op view op n0 =
+  match view n0 with
+  | Some o -> eqb1 o op
+  | None -> false
+
+type opclass =
+| OBlock
+| OIdent
+| OBin
+| OAssign
+| OTpl
+| OCall
+| OOptChain
+| OUnary
+| OArrow
+| OOther
+
+(** val classify : node -> opclass **)
+
+let classify = function
+| Node (t, _) ->
+  (match t with
+   | K (k, _, _) ->
+     (match k with
+      | KBlock -> OBlock
+      | KBin -> OBin
+      | KAssign -> OAssign
+      | KTpl -> OTpl
+      | KCall -> OCall
+      | KOptChain -> OOptChain
+      | KUnary -> OUnary
+      | KArrow -> OArrow
+      | KIdent -> OIdent
+      | _ -> OOther)
+   | _ -> OOther)
+
+(** val default_visit_with :
+    (node -> ostate -> (node * ostate) option) -> node -> ostate ->
+    (node * ostate) option **)
+
+let default_visit_with rec0 n0 s =
+  let Node (t, cs) = n0 in
+  (match t with
+   | K (k, lo, hi) ->
+     (match k with
+      | KTaggedTpl ->
+        (match cs with
+         | [] ->
+           (match map_st rec0 cs s with
+            | Some p -> let (cs', s') = p in Some ((Node (t, cs')), s')
+            | None -> None)
+         | cx :: l ->
+           (match l with
+            | [] ->
+              (match map_st rec0 cs s with
+               | Some p -> let (cs', s') = p in Some ((Node (t, cs')), s')
+               | None -> None)
+            | tg :: l0 ->
+              (match l0 with
+               | [] ->
+                 (match map_st rec0 cs s with
+                  | Some p -> let (cs', s') = p in Some ((Node (t, cs')), s')
+                  | None -> None)
+               | tp :: l1 ->
+                 (match l1 with
+                  | [] ->
+                    (match map_st rec0 cs s with
+                     | Some p ->
+                       let (cs', s') = p in Some ((Node (t, cs')), s')
+                     | None -> None)
+                  | n1 :: l2 ->
+                    let Node (tplt, tplcs) = n1 in
+                    (match l2 with
+                     | [] ->
+                       (match map_st rec0 (cx :: (tg :: (tp :: []))) s with
+                        | Some p ->
+                          let (l3, s1) = p in
+                          (match l3 with
+                           | [] -> None
+                           | cx' :: l4 ->
+                             (match l4 with
+                              | [] -> None
+                              | tg' :: l5 ->
+                                (match l5 with
+                                 | [] -> None
+                                 | tp' :: l6 ->
+                                   (match l6 with
+                                    | [] ->
+                                      (match map_st rec0 tplcs s1 with
+                                       | Some p0 ->
+                                         let (tplcs', s2) = p0 in
+                                         Some ((Node ((K (KTaggedTpl, lo,
+                                         hi)), (cx' :: (tg' :: (tp' :: ((Node
+                                         (tplt, tplcs')) :: [])))))), s2)
+                                       | None -> None)
+                                    | _ :: _ -> None))))
+                        | None -> None)
+                     | _ :: _ ->
+                       (match map_st rec0 cs s with
+                        | Some p ->
+                          let (cs', s') = p in Some ((Node (t, cs')), s')
+                        | None -> None))))))
+      | KOptChain ->
+        (match cs with
+         | [] ->
+           (match map_st rec0 cs s with
+            | Some p -> let (cs', s') = p in Some ((Node (t, cs')), s')
+            | None -> None)
+         | opt :: l ->
+           (match l with
+            | [] ->
+              (match map_st rec0 cs s with
+               | Some p -> let (cs', s') = p in Some ((Node (t, cs')), s')
+               | None -> None)
+            | n1 :: l0 ->
+              let Node (bt, bcs) = n1 in
+              (match l0 with
+               | [] ->
+                 (match map_st rec0 bcs s with
+                  | Some p ->
+                    let (bcs', s1) = p in
+                    Some ((Node ((K (KOptChain, lo, hi)), (opt :: ((Node (bt,
+                    bcs')) :: [])))), s1)
+                  | None -> None)
+               | _ :: _ ->
+                 (match map_st rec0 cs s with
+                  | Some p -> let (cs', s') = p in Some ((Node (t, cs')), s')
+                  | None -> None))))
+      | _ ->
+        (match map_st rec0 cs s with
+         | Some p -> let (cs', s') = p in Some ((Node (t, cs')), s')
+         | None -> None))
+   | _ ->
+     (match map_st rec0 cs s with
+      | Some p -> let (cs', s') = p in Some ((Node (t, cs')), s')
+      | None -> None))
+
+(** val struct_level_with :
+    config -> (node -> ostate -> (node * ostate) option) -> node -> ostate ->
+    (node * ostate) option **)
+
+let struct_level_with c rec0 n0 s =
+  match classify n0 with
+  | OBlock -> Some (n0, s)
+  | OIdent -> Some (n0, (o_with_p (register_variable c n0 s.o_p) s))
+  | _ -> default_visit_with rec0 n0 s
+
+(** val bin_step : config -> node -> ostate -> node * ostate **)
+
+let bin_step c n1 s1 =
+  if is_op bin_op ('+'::[]) n1
+  then let (r, p2) = binary_transform c n1 s1.o_p in
+       let s2 = o_with_p p2 s1 in
+       (match r with
+        | Some e' -> (e', (o_update c Modified (Some gen_ADD_TAG) s2))
+        | None -> (n1, (o_update c NotModified (Some gen_ADD_TAG) s2)))
+  else (n1, s1)
+
+(** val assign_step : config -> node -> ostate -> node * ostate **)
+
+let assign_step c n1 s1 =
+  if is_op assign_op ('+'::('='::[])) n1
+  then let (r, p2) = assign_transform c n1 s1.o_p in
+       let s2 = o_with_p p2 s1 in
+       (match r with
+        | Some e' -> (e', (o_update c Modified (Some gen_ADD_ASSIGN_TAG) s2))
+        | None -> (n1, (o_update c NotModified (Some gen_ADD_ASSIGN_TAG) s2)))
+  else (n1, s1)
+
+(** val tpl_step : config -> node -> ostate -> node * ostate **)
+
+let tpl_step c n1 s1 =
+  let (r, p2) = template_transform c n1 s1.o_p in
+  let s2 = o_with_p p2 s1 in
+  (match r with
+   | Some e' -> (e', (o_update c Modified (Some gen_TPL_TAG) s2))
+   | None -> (n1, (o_update c NotModified (Some gen_TPL_TAG) s2)))
+
+(** val call_step : config -> node -> ostate -> node * ostate **)
+
+let call_step c n1 s1 =
+  if callee_is_expr n1
+  then let (r, p2) = call_transform c n1 s1.o_p in
+       let s2 = o_with_p p2 s1 in
+       (match r with
+        | Some p ->
+          let (e', tag0) = p in (e', (o_update c Modified (Some tag0) s2))
+        | None -> (n1, s2))
+  else (n1, s1)
+
+(** val finish : bool -> (node * ostate) -> (node * ostate) option **)
+
+let finish root r =
+  Some ((fst r), (o_leave root (snd r)))
+
 (** val op_visit :
     config -> nat -> bool -> node -> ostate -> (node * ostate) option **)
 
@@ -2787,655 +3540,49 @@ let rec op_visit c fuel root n0 s =
   match fuel with
   | O -> None
   | S f ->
-    let default_visit = fun root0 n1 s0 ->
-      let Node (t, cs) = n1 in
-      (match t with
-       | K (k, lo, hi) ->
-         (match k with
-          | KTaggedTpl ->
-            (match cs with
-             | [] ->
-               (match map_st (op_visit c f root0) cs s0 with
-                | Some p -> let (cs', s') = p in Some ((Node (t, cs')), s')
-                | None -> None)
-             | cx :: l ->
-               (match l with
-                | [] ->
-                  (match map_st (op_visit c f root0) cs s0 with
-                   | Some p -> let (cs', s') = p in Some ((Node (t, cs')), s')
-                   | None -> None)
-                | tg :: l0 ->
-                  (match l0 with
-                   | [] ->
-                     (match map_st (op_visit c f root0) cs s0 with
-                      | Some p ->
-                        let (cs', s') = p in Some ((Node (t, cs')), s')
-                      | None -> None)
-                   | tp :: l1 ->
-                     (match l1 with
-                      | [] ->
-                        (match map_st (op_visit c f root0) cs s0 with
-                         | Some p ->
-                           let (cs', s') = p in Some ((Node (t, cs')), s')
-                         | None -> None)
-                      | n2 :: l2 ->
-                        let Node (tplt, tplcs) = n2 in
-                        (match l2 with
-                         | [] ->
-                           (match map_st (op_visit c f root0)
-                                    (cx :: (tg :: (tp :: []))) s0 with
-                            | Some p ->
-                              let (l3, s1) = p in
-                              (match l3 with
-                               | [] -> None
-                               | cx' :: l4 ->
-                                 (match l4 with
-                                  | [] -> None
-                                  | tg' :: l5 ->
-                                    (match l5 with
-                                     | [] -> None
-                                     | tp' :: l6 ->
-                                       (match l6 with
-                                        | [] ->
-                                          (match map_st (op_visit c f root0)
-                                                   tplcs s1 with
-                                           | Some p0 ->
-                                             let (tplcs', s2) = p0 in
-                                             Some ((Node ((K (KTaggedTpl, lo,
-                                             hi)),
-                                             (cx' :: (tg' :: (tp' :: ((Node
-                                             (tplt, tplcs')) :: [])))))), s2)
-                                           | None -> None)
-                                        | _ :: _ -> None))))
-                            | None -> None)
-                         | _ :: _ ->
-                           (match map_st (op_visit c f root0) cs s0 with
-                            | Some p ->
-                              let (cs', s') = p in Some ((Node (t, cs')), s')
-                            | None -> None))))))
-          | KOptChain ->
-            (match cs with
-             | [] ->
-               (match map_st (op_visit c f root0) cs s0 with
-                | Some p -> let (cs', s') = p in Some ((Node (t, cs')), s')
-                | None -> None)
-             | opt :: l ->
-               (match l with
-                | [] ->
-                  (match map_st (op_visit c f root0) cs s0 with
-                   | Some p -> let (cs', s') = p in Some ((Node (t, cs')), s')
-                   | None -> None)
-                | n2 :: l0 ->
-                  let Node (bt, bcs) = n2 in
-                  (match l0 with
-                   | [] ->
-                     (match map_st (op_visit c f root0) bcs s0 with
-                      | Some p ->
-                        let (bcs', s1) = p in
-                        Some ((Node ((K (KOptChain, lo, hi)), (opt :: ((Node
-                        (bt, bcs')) :: [])))), s1)
-                      | None -> None)
-                   | _ :: _ ->
-                     (match map_st (op_visit c f root0) cs s0 with
-                      | Some p ->
-                        let (cs', s') = p in Some ((Node (t, cs')), s')
-                      | None -> None))))
-          | _ ->
-            (match map_st (op_visit c f root0) cs s0 with
-             | Some p -> let (cs', s') = p in Some ((Node (t, cs')), s')
-             | None -> None))
-       | _ ->
-         (match map_st (op_visit c f root0) cs s0 with
-          | Some p -> let (cs', s') = p in Some ((Node (t, cs')), s')
-          | None -> None))
-    in
-    let struct_level = fun root0 n1 s0 ->
-      let Node (t, _) = n1 in
-      (match t with
-       | K (k, _, _) ->
-         (match k with
-          | KBlock -> Some (n1, s0)
-          | KIdent -> Some (n1, (o_with_p (register_variable c n1 s0.o_p) s0))
-          | _ -> default_visit root0 n1 s0)
-       | _ -> default_visit root0 n1 s0)
-    in
-    let Node (t, _) = n0 in
-    (match t with
-     | K (k, _, _) ->
-       (match k with
-        | KBlock -> Some (n0, s)
-        | KBin ->
-          if plus_enabled c
-          then (match default_visit false n0 s with
-                | Some p ->
-                  let (n1, s1) = p in
-                  let s3 =
-                    match bin_op n1 with
-                    | Some s0 ->
-                      (match s0 with
-                       | [] -> (n1, s1)
-                       | a::s2 ->
-                         (* If this appears, you're using Ascii internals. Please don't *)
- (fun f c ->
-  let n = Char.code c in
-  let h i = (n land (1 lsl i)) <> 0 in
-  f (h 0) (h 1) (h 2) (h 3) (h 4) (h 5) (h 6) (h 7))
-                           (fun b b0 b1 b2 b3 b4 b5 b6 ->
-                           if b
-                           then if b0
-                                then if b1
-                                     then (n1, s1)
-                                     else if b2
-                                          then if b3
-                                               then (n1, s1)
-                                               else if b4
-                                                    then if b5
-                                                         then (n1, s1)
-                                                         else if b6
-                                                              then (n1, s1)
-                                                              else (match s2 with
-                                                                    | [] ->
-                                                                    let (
-                                                                    r, p2) =
-                                                                    binary_transform
-                                                                    c n1
-                                                                    s1.o_p
-                                                                    in
-                                                                    let s3 =
-                                                                    o_with_p
-                                                                    p2 s1
-                                                                    in
-                                                                    (
-                                                                    match r with
-                                                                    | Some e' ->
-                                                                    (e',
-                                                                    (o_update
-                                                                    c
-                                                                    Modified
-                                                                    (Some
-                                                                    gen_ADD_TAG)
-                                                                    s3))
-                                                                    | None ->
-                                                                    (n1,
-                                                                    (o_update
-                                                                    c
-                                                                    NotModified
-                                                                    (Some
-                                                                    gen_ADD_TAG)
-                                                                    s3)))
-                                                                    | _::_ ->
-                                                                    (n1, s1))
-                                                    else (n1, s1)
-                                          else (n1, s1)
-                                else (n1, s1)
-                           else (n1, s1))
-                           a)
-                    | None -> (n1, s1)
-                  in
-                  Some ((fst s3), (o_leave root (snd s3)))
-                | None -> None)
-          else default_visit root n0 s
-        | KAssign ->
-          if plus_enabled c
-          then (match default_visit false n0 s with
-                | Some p ->
-                  let (n1, s1) = p in
-                  let s3 =
-                    match assign_op n1 with
-                    | Some s0 ->
-                      (match s0 with
-                       | [] -> (n1, s1)
-                       | a::s2 ->
-                         (* If this appears, you're using Ascii internals. Please don't *)
- (fun f c ->
-  let n = Char.code c in
-  let h i = (n land (1 lsl i)) <> 0 in
-  f (h 0) (h 1) (h 2) (h 3) (h 4) (h 5) (h 6) (h 7))
-                           (fun b b0 b1 b2 b3 b4 b5 b6 ->
-                           if b
-                           then if b0
-                                then if b1
-                                     then (n1, s1)
-                                     else if b2
-                                          then if b3
-                                               then (n1, s1)
-                                               else if b4
-                                                    then if b5
-                                                         then (n1, s1)
-                                                         else if b6
-                                                              then (n1, s1)
-                                                              else (match s2 with
-                                                                    | [] ->
-                                                                    (n1, s1)
-                                                                    | a0::s3 ->
-                                                                    (* If this appears, you're using Ascii internals. Please don't *)
- (fun f c ->
-  let n = Char.code c in
-  let h i = (n land (1 lsl i)) <> 0 in
-  f (h 0) (h 1) (h 2) (h 3) (h 4) (h 5) (h 6) (h 7))
-                                                                    (fun b7 b8 b9 b10 b11 b12 b13 b14 ->
-                                                                    if b7
-                                                                    then 
-                                                                    if b8
-                                                                    then 
-                                                                    (n1, s1)
-                                                                    else 
-                                                                    if b9
-                                                                    then 
-                                                                    if b10
-                                                                    then 
-                                                                    if b11
-                                                                    then 
-                                                                    if b12
-                                                                    then 
-                                                                    if b13
-                                                                    then 
-                                                                    (n1, s1)
-                                                                    else 
-                                                                    if b14
-                                                                    then 
-                                                                    (n1, s1)
-                                                                    else 
-                                                                    (match s3 with
-                                                                    | [] ->
-                                                                    let (
-                                                                    r, p2) =
-                                                                    assign_transform
-                                                                    c n1
-                                                                    s1.o_p
-                                                                    in
-                                                                    let s4 =
-                                                                    o_with_p
-                                                                    p2 s1
-                                                                    in
-                                                                    (
-                                                                    match r with
-                                                                    | Some e' ->
-                                                                    (e',
-                                                                    (o_update
-                                                                    c
-                                                                    Modified
-                                                                    (Some
-                                                                    gen_ADD_ASSIGN_TAG)
-                                                                    s4))
-                                                                    | None ->
-                                                                    (n1,
-                                                                    (o_update
-                                                                    c
-                                                                    NotModified
-                                                                    (Some
-                                                                    gen_ADD_ASSIGN_TAG)
-                                                                    s4)))
-                                                                    | _::_ ->
-                                                                    (n1, s1))
-                                                                    else 
-                                                                    (n1, s1)
-                                                                    else 
-                                                                    (n1, s1)
-                                                                    else 
-                                                                    (n1, s1)
-                                                                    else 
-                                                                    (n1, s1)
-                                                                    else 
-                                                                    (n1, s1))
-                                                                    a0)
-                                                    else (n1, s1)
-                                          else (n1, s1)
-                                else (n1, s1)
-                           else (n1, s1))
-                           a)
-                    | None -> (n1, s1)
-                  in
-                  Some ((fst s3), (o_leave root (snd s3)))
-                | None -> None)
-          else default_visit root n0 s
-        | KTpl ->
-          if tpl_enabled c
-          then if tpl_instrumentable n0
-               then (match default_visit false n0 s with
-                     | Some p ->
-                       let (n1, s1) = p in
-                       let (r, p2) = template_transform c n1 s1.o_p in
-                       let s2 = o_with_p p2 s1 in
-                       let s3 =
-                         match r with
-                         | Some e' ->
-                           (e', (o_update c Modified (Some gen_TPL_TAG) s2))
-                         | None ->
-                           (n1,
-                             (o_update c NotModified (Some gen_TPL_TAG) s2))
-                       in
-                       Some ((fst s3), (o_leave root (snd s3)))
-                     | None -> None)
-               else Some (n0, s)
-          else default_visit root n0 s
-        | KCall ->
-          (match default_visit false n0 s with
-           | Some p ->
-             let (n1, s1) = p in
-             let s3 =
-               if callee_is_expr n1
-               then let (r, p2) = call_transform c n1 s1.o_p in
-                    let s2 = o_with_p p2 s1 in
-                    (match r with
-                     | Some p0 ->
-                       let (e', tag0) = p0 in
-                       (e', (o_update c Modified (Some tag0) s2))
-                     | None -> (n1, s2))
-               else (n1, s1)
-             in
-             Some ((fst s3), (o_leave root (snd s3)))
+    (match classify n0 with
+     | OBlock -> Some (n0, s)
+     | OIdent -> Some (n0, (o_with_p (register_variable c n0 s.o_p) s))
+     | OBin ->
+       if plus_enabled c
+       then (match default_visit_with (op_visit c f false) n0 s with
+             | Some p -> let (n1, s1) = p in finish root (bin_step c n1 s1)
+             | None -> None)
+       else default_visit_with (op_visit c f root) n0 s
+     | OAssign ->
+       if plus_enabled c
+       then (match default_visit_with (op_visit c f false) n0 s with
+             | Some p -> let (n1, s1) = p in finish root (assign_step c n1 s1)
+             | None -> None)
+       else default_visit_with (op_visit c f root) n0 s
+     | OTpl ->
+       if tpl_enabled c
+       then if tpl_instrumentable n0
+            then (match default_visit_with (op_visit c f false) n0 s with
+                  | Some p ->
+                    let (n1, s1) = p in finish root (tpl_step c n1 s1)
+                  | None -> None)
+            else Some (n0, s)
+       else default_visit_with (op_visit c f root) n0 s
+     | OCall ->
+       (match default_visit_with (op_visit c f false) n0 s with
+        | Some p -> let (n1, s1) = p in finish root (call_step c n1 s1)
+        | None -> None)
+     | OOptChain ->
+       (match optchain_transform c f n0 s.o_p with
+        | Some p ->
+          let (p0, p1) = p in
+          let (n1, _) = p0 in
+          (match struct_level_with c (op_visit c f false) n1 (o_with_p p1 s) with
+           | Some p2 -> let (n2, s3) = p2 in Some (n2, (o_leave root s3))
            | None -> None)
-        | KOptChain ->
-          (match optchain_transform c f n0 s.o_p with
-           | Some p ->
-             let (p0, p1) = p in
-             let (n1, _) = p0 in
-             let s1 = o_with_p p1 s in
-             (match struct_level false n1 s1 with
-              | Some p2 -> let (n2, s3) = p2 in Some (n2, (o_leave root s3))
-              | None -> None)
-           | None -> None)
-        | KUnary ->
-          (match unary_op n0 with
-           | Some s0 ->
-             (match s0 with
-              | [] -> default_visit root n0 s
-              | a::s1 ->
-                (* If this appears, you're using Ascii internals. Please don't *)
- (fun f c ->
-  let n = Char.code c in
-  let h i = (n land (1 lsl i)) <> 0 in
-  f (h 0) (h 1) (h 2) (h 3) (h 4) (h 5) (h 6) (h 7))
-                  (fun b b0 b1 b2 b3 b4 b5 b6 ->
-                  if b
-                  then default_visit root n0 s
-                  else if b0
-                       then default_visit root n0 s
-                       else if b1
-                            then if b2
-                                 then default_visit root n0 s
-                                 else if b3
-                                      then default_visit root n0 s
-                                      else if b4
-                                           then if b5
-                                                then if b6
-                                                     then default_visit root
-                                                            n0 s
-                                                     else (match s1 with
-                                                           | [] ->
-                                                             default_visit
-                                                               root n0 s
-                                                           | a0::s2 ->
-                                                             (* If this appears, you're using Ascii internals. Please don't *)
- (fun f c ->
-  let n = Char.code c in
-  let h i = (n land (1 lsl i)) <> 0 in
-  f (h 0) (h 1) (h 2) (h 3) (h 4) (h 5) (h 6) (h 7))
-                                                               (fun b7 b8 b9 b10 b11 b12 b13 b14 ->
-                                                               if b7
-                                                               then if b8
-                                                                    then 
-                                                                    default_visit
-                                                                    root n0 s
-                                                                    else 
-                                                                    if b9
-                                                                    then 
-                                                                    if b10
-                                                                    then 
-                                                                    default_visit
-                                                                    root n0 s
-                                                                    else 
-                                                                    if b11
-                                                                    then 
-                                                                    default_visit
-                                                                    root n0 s
-                                                                    else 
-                                                                    if b12
-                                                                    then 
-                                                                    if b13
-                                                                    then 
-                                                                    if b14
-                                                                    then 
-                                                                    default_visit
-                                                                    root n0 s
-                                                                    else 
-                                                                    (match s2 with
-                                                                    | [] ->
-                                                                    default_visit
-                                                                    root n0 s
-                                                                    | a1::s3 ->
-                                                                    (* If this appears, you're using Ascii internals. Please don't *)
- (fun f c ->
-  let n = Char.code c in
-  let h i = (n land (1 lsl i)) <> 0 in
-  f (h 0) (h 1) (h 2) (h 3) (h 4) (h 5) (h 6) (h 7))
-                                                                    (fun b15 b16 b17 b18 b19 b20 b21 b22 ->
-                                                                    if b15
-                                                                    then 
-                                                                    default_visit
-                                                                    root n0 s
-                                                                    else 
-                                                                    if b16
-                                                                    then 
-                                                                    default_visit
-                                                                    root n0 s
-                                                                    else 
-                                                                    if b17
-                                                                    then 
-                                                                    if b18
-                                                                    then 
-                                                                    if b19
-                                                                    then 
-                                                                    default_visit
-                                                                    root n0 s
-                                                                    else 
-                                                                    if b20
-                                                                    then 
-                                                                    if b21
-                                                                    then 
-                                                                    if b22
-                                                                    then 
-                                                                    default_visit
-                                                                    root n0 s
-                                                                    else 
-                                                                    (match s3 with
-                                                                    | [] ->
-                                                                    default_visit
-                                                                    root n0 s
-                                                                    | a2::s4 ->
-                                                                    (* If this appears, you're using Ascii internals. Please don't *)
- (fun f c ->
-  let n = Char.code c in
-  let h i = (n land (1 lsl i)) <> 0 in
-  f (h 0) (h 1) (h 2) (h 3) (h 4) (h 5) (h 6) (h 7))
-                                                                    (fun b23 b24 b25 b26 b27 b28 b29 b30 ->
-                                                                    if b23
-                                                                    then 
-                                                                    if b24
-                                                                    then 
-                                                                    default_visit
-                                                                    root n0 s
-                                                                    else 
-                                                                    if b25
-                                                                    then 
-                                                                    if b26
-                                                                    then 
-                                                                    default_visit
-                                                                    root n0 s
-                                                                    else 
-                                                                    if b27
-                                                                    then 
-                                                                    default_visit
-                                                                    root n0 s
-                                                                    else 
-                                                                    if b28
-                                                                    then 
-                                                                    if b29
-                                                                    then 
-                                                                    if b30
-                                                                    then 
-                                                                    default_visit
-                                                                    root n0 s
-                                                                    else 
-                                                                    (match s4 with
-                                                                    | [] ->
-                                                                    default_visit
-                                                                    root n0 s
-                                                                    | a3::s5 ->
-                                                                    (* If this appears, you're using Ascii internals. Please don't *)
- (fun f c ->
-  let n = Char.code c in
-  let h i = (n land (1 lsl i)) <> 0 in
-  f (h 0) (h 1) (h 2) (h 3) (h 4) (h 5) (h 6) (h 7))
-                                                                    (fun b31 b32 b33 b34 b35 b36 b37 b38 ->
-                                                                    if b31
-                                                                    then 
-                                                                    default_visit
-                                                                    root n0 s
-                                                                    else 
-                                                                    if b32
-                                                                    then 
-                                                                    default_visit
-                                                                    root n0 s
-                                                                    else 
-                                                                    if b33
-                                                                    then 
-                                                                    if b34
-                                                                    then 
-                                                                    default_visit
-                                                                    root n0 s
-                                                                    else 
-                                                                    if b35
-                                                                    then 
-                                                                    if b36
-                                                                    then 
-                                                                    if b37
-                                                                    then 
-                                                                    if b38
-                                                                    then 
-                                                                    default_visit
-                                                                    root n0 s
-                                                                    else 
-                                                                    (match s5 with
-                                                                    | [] ->
-                                                                    default_visit
-                                                                    root n0 s
-                                                                    | a4::s6 ->
-                                                                    (* If this appears, you're using Ascii internals. Please don't *)
- (fun f c ->
-  let n = Char.code c in
-  let h i = (n land (1 lsl i)) <> 0 in
-  f (h 0) (h 1) (h 2) (h 3) (h 4) (h 5) (h 6) (h 7))
-                                                                    (fun b39 b40 b41 b42 b43 b44 b45 b46 ->
-                                                                    if b39
-                                                                    then 
-                                                                    if b40
-                                                                    then 
-                                                                    default_visit
-                                                                    root n0 s
-                                                                    else 
-                                                                    if b41
-                                                                    then 
-                                                                    if b42
-                                                                    then 
-                                                                    default_visit
-                                                                    root n0 s
-                                                                    else 
-                                                                    if b43
-                                                                    then 
-                                                                    default_visit
-                                                                    root n0 s
-                                                                    else 
-                                                                    if b44
-                                                                    then 
-                                                                    if b45
-                                                                    then 
-                                                                    if b46
-                                                                    then 
-                                                                    default_visit
-                                                                    root n0 s
-                                                                    else 
-                                                                    (match s6 with
-                                                                    | [] ->
-                                                                    Some (n0,
-                                                                    s)
-                                                                    | _::_ ->
-                                                                    default_visit
-                                                                    root n0 s)
-                                                                    else 
-                                                                    default_visit
-                                                                    root n0 s
-                                                                    else 
-                                                                    default_visit
-                                                                    root n0 s
-                                                                    else 
-                                                                    default_visit
-                                                                    root n0 s
-                                                                    else 
-                                                                    default_visit
-                                                                    root n0 s)
-                                                                    a4)
-                                                                    else 
-                                                                    default_visit
-                                                                    root n0 s
-                                                                    else 
-                                                                    default_visit
-                                                                    root n0 s
-                                                                    else 
-                                                                    default_visit
-                                                                    root n0 s
-                                                                    else 
-                                                                    default_visit
-                                                                    root n0 s)
-                                                                    a3)
-                                                                    else 
-                                                                    default_visit
-                                                                    root n0 s
-                                                                    else 
-                                                                    default_visit
-                                                                    root n0 s
-                                                                    else 
-                                                                    default_visit
-                                                                    root n0 s
-                                                                    else 
-                                                                    default_visit
-                                                                    root n0 s)
-                                                                    a2)
-                                                                    else 
-                                                                    default_visit
-                                                                    root n0 s
-                                                                    else 
-                                                                    default_visit
-                                                                    root n0 s
-                                                                    else 
-                                                                    default_visit
-                                                                    root n0 s
-                                                                    else 
-                                                                    default_visit
-                                                                    root n0 s)
-                                                                    a1)
-                                                                    else 
-                                                                    default_visit
-                                                                    root n0 s
-                                                                    else 
-                                                                    default_visit
-                                                                    root n0 s
-                                                                    else 
-                                                                    default_visit
-                                                                    root n0 s
-                                                               else default_visit
-                                                                    root n0 s)
-                                                               a0)
-                                                else default_visit root n0 s
-                                           else default_visit root n0 s
-                            else default_visit root n0 s)
-                  a)
-           | None -> default_visit root n0 s)
-        | KArrow -> Some ((arrow_transform n0), s)
-        | KIdent -> Some (n0, (o_with_p (register_variable c n0 s.o_p) s))
-        | _ -> default_visit root n0 s)
-     | _ -> default_visit root n0 s)
+        | None -> None)
+     | OUnary ->
+       if is_op unary_op ('d'::('e'::('l'::('e'::('t'::('e'::[])))))) n0
+       then Some (n0, s)
+       else default_visit_with (op_visit c f root) n0 s
+     | OArrow -> Some ((arrow_transform n0), s)
+     | OOther -> default_visit_with (op_visit c f root) n0 s)
 
 (** val can_precede_directive : node -> bool **)
 
@@ -6480,6 +6627,176 @@ let rec first_diff_nospan a b =
                | Some path -> Some (i :: path)
                | None -> go (S i) x' y'))
        in go O ca cb
+
+(** val spine_has_optional : node -> bool **)
+
+let rec spine_has_optional = function
+| Node (t, cs) ->
+  (match t with
+   | K (k, _, _) ->
+     (match k with
+      | KCall ->
+        (match cs with
+         | [] -> false
+         | _ :: l ->
+           (match l with
+            | [] -> false
+            | callee :: l0 ->
+              (match l0 with
+               | [] -> false
+               | _ :: l1 ->
+                 (match l1 with
+                  | [] -> false
+                  | _ :: l2 ->
+                    (match l2 with
+                     | [] -> spine_has_optional callee
+                     | _ :: _ -> false)))))
+      | KMember ->
+        (match cs with
+         | [] -> false
+         | obj :: l ->
+           (match l with
+            | [] -> false
+            | _ :: l0 ->
+              (match l0 with
+               | [] -> spine_has_optional obj
+               | _ :: _ -> false)))
+      | KOptChain ->
+        (match cs with
+         | [] -> false
+         | n1 :: l ->
+           let Node (t0, cs0) = n1 in
+           (match t0 with
+            | Bln b ->
+              if b
+              then (match cs0 with
+                    | [] ->
+                      (match l with
+                       | [] -> false
+                       | _ :: l0 ->
+                         (match l0 with
+                          | [] -> true
+                          | _ :: _ -> false))
+                    | _ :: _ ->
+                      (match l with
+                       | [] -> false
+                       | base :: l1 ->
+                         (match l1 with
+                          | [] -> spine_has_optional base
+                          | _ :: _ -> false)))
+              else (match l with
+                    | [] -> false
+                    | base :: l0 ->
+                      (match l0 with
+                       | [] -> spine_has_optional base
+                       | _ :: _ -> false))
+            | _ ->
+              (match l with
+               | [] -> false
+               | base :: l0 ->
+                 (match l0 with
+                  | [] -> spine_has_optional base
+                  | _ :: _ -> false))))
+      | _ -> false)
+   | _ -> false)
+
+(** val norm_post : node -> node **)
+
+let norm_post n0 = match n0 with
+| Node (t, cs) ->
+  (match t with
+   | K (k, lo, hi) ->
+     (match k with
+      | KTplElem ->
+        (match cs with
+         | [] -> n0
+         | tail :: l ->
+           (match l with
+            | [] -> n0
+            | _ :: l0 ->
+              (match l0 with
+               | [] -> n0
+               | raw :: l1 ->
+                 (match l1 with
+                  | [] -> Node ((K (KTplElem, lo, hi)), (tail :: (raw :: [])))
+                  | _ :: _ -> n0))))
+      | KOptChain ->
+        (match cs with
+         | [] -> n0
+         | n1 :: l ->
+           let Node (t0, cs0) = n1 in
+           (match t0 with
+            | Bln b ->
+              if b
+              then n0
+              else (match cs0 with
+                    | [] ->
+                      (match l with
+                       | [] -> n0
+                       | base :: l0 ->
+                         (match l0 with
+                          | [] -> base
+                          | _ :: _ -> n0))
+                    | _ :: _ -> n0)
+            | _ -> n0))
+      | KParen ->
+        (match cs with
+         | [] -> n0
+         | e :: l ->
+           (match l with
+            | [] -> if spine_has_optional e then n0 else e
+            | _ :: _ -> n0))
+      | KStr ->
+        (match cs with
+         | [] -> n0
+         | v :: _ -> Node ((K (KStr, lo, hi)), (v :: [])))
+      | KNum ->
+        (match cs with
+         | [] -> n0
+         | v :: _ -> Node ((K (KNum, lo, hi)), (v :: [])))
+      | KBigInt ->
+        (match cs with
+         | [] -> n0
+         | v :: _ -> Node ((K (KBigInt, lo, hi)), (v :: [])))
+      | _ -> n0)
+   | Obj ->
+     (match cs with
+      | [] -> n0
+      | n1 :: l ->
+        let Node (t0, cs0) = n1 in
+        (match t0 with
+         | Num _ ->
+           (match cs0 with
+            | [] ->
+              (match l with
+               | [] -> n0
+               | n2 :: l0 ->
+                 let Node (t1, cs1) = n2 in
+                 (match t1 with
+                  | Num _ ->
+                    (match cs1 with
+                     | [] ->
+                       (match l0 with
+                        | [] ->
+                          Node (Obj,
+                            ((nNum ('0'::[])) :: ((nNum ('0'::[])) :: [])))
+                        | _ :: _ -> n0)
+                     | _ :: _ -> n0)
+                  | _ -> n0))
+            | _ :: _ -> n0)
+         | _ -> n0))
+   | Lst -> Node (Lst, (filter (fun x -> negb (is_kind KEmptyStmt x)) cs))
+   | _ -> n0)
+
+(** val norm_print : node -> node **)
+
+let rec norm_print = function
+| Node (t, cs) -> norm_post (Node (t, (map norm_print cs)))
+
+(** val roundtrip_ok : node -> node -> bool **)
+
+let roundtrip_ok out reparsed =
+  node_eqb_nospan (norm_print out) (norm_print reparsed)
 
 type site_cfg = { sc_plus : bool; sc_tpl : bool; sc_methods : char list list;
                   sc_lit_callers : char list list }
